@@ -176,8 +176,21 @@ class MandyKb(ApiImmut):
         sc = max(float(np.max(np.abs(y))), 1e-300)
         err = float(np.max(np.abs(fitted_got - fitted_want))) / sc if fitted_got.shape == fitted_want.shape else np.inf
         tags = ['gram_rank_deficient' if exact_def else 'gram_regular']
+        if not exact_def and fitted_got.shape == fitted_want.shape:
+            # A backward-stable solve of z G = y reproduces y up to eps * |z| * |G| (NOT eps * cond(G) * |y|: for right-hand sides in the
+            # well-conditioned directions - noise-free data generated from a model in the span of the basis - the coefficients are small
+            # and the fitted values accurate to many more digits than cond(G) suggests; forming an explicit inverse loses exactly those).
+            zr = np.linalg.lstsq(G.T, np.atleast_2d(y).T, rcond=1e-13)[0].T
+            bs = 2.220446049250313e-16 * float(np.linalg.norm(zr, 2)) * float(np.linalg.norm(G, 2)) / max(float(np.linalg.norm(np.atleast_2d(y), 2)), 1e-300)
+            r_ = err / max(bs, 1e-300)
+            c.events['mandy_kb_accuracy_in_backward_stable_units:1e%+d' % int(np.floor(np.log10(max(r_, 1e-3))))] += 1
+            c.check(self.api, 'fitted_values_as_accurate_as_a_backward_stable_solve', err <= KB_K * bs + 1e-13, tags,
+                    {'rel_err': err, 'backward_stable_unit': bs, 'cond_gram': cg, 'N': N, 'm': m}, prop=P)
         c.check(self.api, 'reproduces_fitted_values_of_pseudoinverse_solution', err <= 1e-8 + 1e-12 * cond_eff, tags, {'rel_err': err, 'cond_gram': cg, 'cond_effective': cond_eff, 'N': N, 'm': m}, prop=P)
         c.sig(self.api, [len(f) for f in bl], m, tags)
+
+
+KB_K = 1e3  # (calibrated on the unchanged tree: histogram mandy_kb_accuracy_in_backward_stable_units in the evidence)
 
 
 class ArrUpdate(probe.Contract):
